@@ -199,7 +199,7 @@ def main():
     ck = Check(PID, "proof")
     b = Build()
     ck.cov["trusted_base"] = vlib.TRUSTED_COMMON + [
-        "coq/Lower/Opt2.v is a hand transcription of compiler.go:386-412 (claimOrCopy), 2306-2335 (assignment: free, then claim/copy), 2048-2068 + 616-650 (parameter passing), 435-448 (exitFuncScope), 2572-2583 (for-each holder) and const_func_param.go:57-171; one level of non-primitive values (Text / Zahlen Liste as sequences), locals freed at function exit, calls as statements",
+        "coq/Lower/Opt2.v is a hand transcription of compiler.go claimOrCopy, VisitAssignStmt (copy a non-temporary, free the old value, claim), VisitFuncCall + defineFuncBody (parameter passing), exitFuncScope, VisitForRangeStmt (for-each holder) and const_func_param.go; one level of non-primitive values (Text / Zahlen Liste as sequences), locals freed at function exit, calls as statements",
         "the expected output of every generated program comes from a value-semantics interpreter written for this check (checks/c08gen.py: immutable values, Referenz = caller lvalue path), not from the model",
         "LLVM 14, gcc, glibc malloc (a read of freed memory is only visible as garbage/crash or through the ASan flavour) are outside the model",
         "harness/go/cmd/constx prints the ConstFuncParamMeta the real annotator attaches (compared with the model's `analyse` for every program of the model's fragment)",
@@ -242,8 +242,8 @@ def main():
         if r[0] == "fuel":
             dropped["fuel"] += 1
             continue
-        if r[2] & {"S", "D"}:
-            # the two all-level defects have dedicated shape programs; keep only a few random ones
+        if r[2] & {"D"}:
+            # the all-level dangling-part-reference defect has dedicated shape programs; keep only a few random ones
             if ub_kept >= (4 if ck.quick else 40):
                 dropped["ub_quota"] += 1
                 continue
@@ -348,7 +348,7 @@ def main():
             if mc[0] == "ok":
                 good = (ref[0] == "ok" and mc[1] == ref[1])
             elif mc[0] == "er":
-                good = (mc[1] == "bounds" and ref[0] == "err") or (mc[1] == "selfassign" and "S" in ref[2]) or mc[1] == "fuel"
+                good = (mc[1] == "bounds" and ref[0] == "err") or mc[1] == "fuel"
             else:
                 good = False
             if not good:
